@@ -127,6 +127,8 @@ type fakeIDP struct {
 	rawNonceFor    func(hashed string) string
 	issuedIDTokens []string
 	staleRTUse     int
+	initialTokenPad string // appended to access tokens issued for a code (big initial sessions)
+	accessTokenPad string // appended to access tokens issued on refresh (growing sessions)
 	refreshNonce   string // nonce claim to put into refreshed ID tokens of sessions the harness crafted itself
 }
 
@@ -329,7 +331,7 @@ func (p *fakeIDP) token(w http.ResponseWriter, form url.Values) {
 		rt := fmt.Sprintf("rt-%d", p.rtSeq)
 		p.refresh[rt] = g.user
 		resp := map[string]interface{}{
-			"access_token": fmt.Sprintf("at-%d", p.rtSeq), "token_type": "Bearer", "expires_in": int(p.tokenTTL.Seconds()),
+			"access_token": fmt.Sprintf("at-%d", p.rtSeq) + p.initialTokenPad, "token_type": "Bearer", "expires_in": int(p.tokenTTL.Seconds()),
 			"refresh_token": rt, "id_token": p.idToken(g.user, g.nonce),
 		}
 		b, _ := json.Marshal(resp)
@@ -351,7 +353,7 @@ func (p *fakeIDP) token(w http.ResponseWriter, form url.Values) {
 			p.refresh[newRT] = user
 		}
 		resp := map[string]interface{}{
-			"access_token": fmt.Sprintf("at-%d", p.rtSeq), "token_type": "Bearer", "expires_in": int(p.tokenTTL.Seconds()),
+			"access_token": fmt.Sprintf("at-%d", p.rtSeq) + p.accessTokenPad, "token_type": "Bearer", "expires_in": int(p.tokenTTL.Seconds()),
 			"refresh_token": newRT,
 		}
 		if p.refreshReturnsIDToken {
